@@ -378,7 +378,10 @@ impl<'a> CompilerState<'a> {
 
         // Create collected literal variables in memory
         self.literal_counter += res.1.len();
-        for k in &res.1 {
+        // Literals are created in the order of their numbers, not in the hash map's order
+        let mut literals: Vec<(&String, &String)> = res.1.iter().collect();
+        literals.sort_by_key(|k| k.0[5..].parse::<usize>().unwrap_or(0));
+        for k in literals {
             let vb = k.1.as_bytes();
             let mut v = Vec::<VariableValue>::new();
             for c in vb.iter() {
@@ -543,7 +546,10 @@ impl<'a> CompilerState<'a> {
 
         // Create collected literal variables in memory
         self.literal_counter += res.1.len();
-        for k in &res.1 {
+        // Literals are created in the order of their numbers, not in the hash map's order
+        let mut literals: Vec<(&String, &String)> = res.1.iter().collect();
+        literals.sort_by_key(|k| k.0[5..].parse::<usize>().unwrap_or(0));
+        for k in literals {
             let vb = k.1.as_bytes();
             let mut v = Vec::<VariableValue>::new();
             for c in vb.iter() {
